@@ -1612,11 +1612,31 @@ func (p *Posix) CompleteMultipartUpload(ctx context.Context, input *s3.CompleteM
 
 	d, err := os.Stat(objname)
 
-	// if the versioninng is enabled first create the file object version
-	if p.versioningEnabled() && vEnabled && err == nil && !d.IsDir() {
-		_, err := p.createObjVersion(bucket, object, d.Size(), acct)
+	// if the versioninng is enabled first create the file object version.
+	// In a Suspended bucket (as in PutObject) a current version that has a
+	// version id is archived as well - only the null version is replaced,
+	// here and in the versioning directory; the current version (or delete
+	// marker) was overwritten and lost before
+	if p.versioningEnabled() && vStatus != "" && err == nil && !d.IsDir() {
+		archive := true
+		if p.isBucketVersioningSuspended(vStatus) {
+			vIdBytes, err := p.meta.RetrieveAttribute(nil, bucket, object, versionIdKey)
+			if err != nil && !errors.Is(err, meta.ErrNoSuchKey) {
+				return nil, fmt.Errorf("get object versionId: %w", err)
+			}
+			archive = len(vIdBytes) != 0
+		}
+		if archive {
+			_, err := p.createObjVersion(bucket, object, d.Size(), acct)
+			if err != nil {
+				return nil, fmt.Errorf("create object version: %w", err)
+			}
+		}
+	}
+	if p.versioningEnabled() && p.isBucketVersioningSuspended(vStatus) {
+		err := p.deleteNullVersionIdObject(bucket, object)
 		if err != nil {
-			return nil, fmt.Errorf("create object version: %w", err)
+			return nil, err
 		}
 	}
 
